@@ -475,6 +475,18 @@ func (e *specEnv) callExpr(c *ast.CallExpr) Val {
 				if e.iter == nil || e.iter.head == nil {
 					e.fail(c, "iterStart outside a loop clause")
 				}
+				if id, ok := c.Args[0].(*ast.Ident); ok && e.fr != nil {
+					// a loop-carried local: its value at the start of the iteration is the header phi
+					if v, isVar := e.info.Uses[id].(*types.Var); isVar && !v.IsField() {
+						for _, ph := range e.x.headerPhis(e.iter) {
+							if ph.Comment == v.Name() {
+								if pv, have := e.fr.env[ph]; have {
+									return pv
+								}
+							}
+						}
+					}
+				}
 				return e.withState(e.iter.head, func() Val { return e.expr(c.Args[0]) })
 			case "implies":
 				return scalar(Implies(e.boolExpr(c.Args[0]), e.boolExpr(c.Args[1])), types.Typ[types.Bool])
@@ -539,6 +551,21 @@ func (e *specEnv) callExpr(c *ast.CallExpr) Val {
 					e.fail(c, "no integer result recorded for a call of %s before this point", name)
 				}
 				return scalar(SignExt(v.T, 64), types.Typ[types.Int64])
+			case "called":
+				// called("callee"): that callee has been called since the function under verification was entered (on this path)
+				bl, ok := c.Args[0].(*ast.BasicLit)
+				if !ok {
+					e.fail(c, "called needs a string literal")
+				}
+				name := strings.Trim(bl.Value, "\"`")
+				if e.callee {
+					return scalar(Fresh("called", SBool), types.Typ[types.Bool])
+				}
+				if e.x.P.FuncByKey[name] == nil {
+					e.fail(c, "called(%q): no such function in the package", name)
+				}
+				id := calledID(name)
+				return scalar(Not(Eq(Select(e.cur.arr("X:called", BV(64)), id), Select(e.old.arr("X:called", BV(64)), id))), types.Typ[types.Bool])
 			case "lastNil":
 				// lastNil("callee"): the pointer returned by the most recent call of that callee in this execution was nil
 				bl, ok := c.Args[0].(*ast.BasicLit)
